@@ -41,7 +41,8 @@ def build(cfg, like=None):
         periodic, reflective = c["bc"]
     kw = dict(prior_transform=pt, log_likelihood=like, n_dim=t.n_dim, n_particles=c["N"],
               ess_ratio=c["ess_ratio"], volume_variation=c["volume_variation"],
-              vectorize=(c["mode"] == "vec"), blobs_dtype=("float64" if c["mode"] == "blobs" else None),
+              vectorize=(c["mode"] == "vec"),
+              blobs_dtype=("float64" if c["mode"] == "blobs" else [("id", "f8"), ("half", "f8")] if c["mode"] == "blobs2" else None),
               periodic=periodic, reflective=reflective, pool=c["pool"], clustering=c["clustering"],
               normalize=c["normalize"], cluster_every=c["cluster_every"],
               split_threshold=c["split_threshold"], n_max_clusters=c["n_max_clusters"],
